@@ -860,6 +860,27 @@ def missing_column_type_rule(program, res, rule="C16-S5"):
                     "for; Polars and SQLite return the join")
 
 
+def on_pairs_kept_as_pairs_rule(program, res, rule="C16-S3"):
+    """the `on` argument is a list of (left column, right column) pairs; a left column may be compared with two right columns (`[("k","k1"),("k","k2")]`, SQL's
+    `ON l.k = r.k1 AND l.k = r.k2`).  The parser therefore has to keep the pairs as a sequence: a dictionary keyed by one side keeps the last partner only"""
+    f = program.module("view_representations").functions.get("_convert_on_clause_to_parallel_lists")
+    if f is None:
+        raise AnalysisError("anchor vanished: view_representations._convert_on_clause_to_parallel_lists")
+    res.analysed(f)
+    keyed = [st for st in ast.walk(f.node) if isinstance(st, ast.Assign) and isinstance(st.targets[0], ast.Subscript) and isinstance(st.targets[0].slice, ast.Name)]
+    from_dict = [r for r in ast.walk(f.node) if isinstance(r, ast.Return) and r.value is not None
+                 and any(isinstance(c, ast.Call) and isinstance(c.func, ast.Attribute) and c.func.attr in ("keys", "values", "items") for c in ast.walk(r.value))]
+    appends = [c for c in ast.walk(f.node) if isinstance(c, ast.Call) and isinstance(c.func, ast.Attribute) and c.func.attr == "append"]
+    if keyed and from_dict:
+        res.fail_at(rule, f, "on-pairs-collected-in-dict",
+                    f"the key pairs are collected with `{unparse(keyed[0])}` and read back from the dictionary: a left column compared with two right columns keeps its last partner "
+                    f"only, so on=[('k','k1'),('k','k2')] joins on k = k2 alone on every executor (extra matched rows, unmatched rows lost)", keyed[0])
+    elif len(appends) >= 2:
+        res.ok(rule, "the on-clause parser appends every pair to both key lists (a repeated column keeps all its partners)")
+    else:
+        res.abstain(rule, "_convert_on_clause_to_parallel_lists", "neither the append form nor a keyed store recognised")
+
+
 def run(program, res, tier):
     res.rule("C16-S1", "join-type vocabulary maps to the same join in every back end")
     res.rule("C16-S2", "a rewrite that permutes a join node's sources permutes on_a/on_b with them")
@@ -868,6 +889,7 @@ def run(program, res, tier):
     _s1(program, res)
     paired_field_rewrite(program, res)
     _s3(program, res)
+    on_pairs_kept_as_pairs_rule(program, res)
     _s3c(program, res)
     coalesce_any_type_rule(program, res)
     _s4(program, res)
